@@ -82,19 +82,7 @@ func loadFindings(dir string) ([]Finding, error) {
 }
 
 func (ps *PropSpec) includes(o *Obligation) bool {
-	if len(ps.Kinds) > 0 {
-		ok := false
-		for _, k := range ps.Kinds {
-			if strings.HasPrefix(o.Kind, k) {
-				ok = true
-				break
-			}
-		}
-		if !ok {
-			return false
-		}
-	}
-	// labelled for another property?
+	// obligations whose label carries a property tag (cNN_) belong to that property only
 	rest := o.Name
 	if i := strings.Index(rest, "/"); i >= 0 {
 		rest = rest[i+1:]
@@ -102,7 +90,16 @@ func (ps *PropSpec) includes(o *Obligation) bool {
 	if m := propTag.FindStringSubmatch(rest); m != nil {
 		return ps.Tag != "" && m[1] == ps.Tag
 	}
-	return true
+	// untagged obligations: filtered by kind (empty list = all)
+	if len(ps.Kinds) == 0 {
+		return true
+	}
+	for _, k := range ps.Kinds {
+		if k != "" && strings.HasPrefix(o.Kind, k) {
+			return true
+		}
+	}
+	return false
 }
 
 // Evidence mirrors EVIDENCE.schema.json.
@@ -257,13 +254,17 @@ func cmdProp(args []string) int {
 	}
 	// must-fail twins
 	var twinObls []*Obligation
-	for _, tw := range ps.Twins {
-		o, err := w.twinObligation(tw)
+	var twinOf []int
+	for ti, tw := range ps.Twins {
+		os2, err := w.twinObligation(tw)
 		if err != nil {
-			genErrors = append(genErrors, "twin "+tw.Func+"/"+tw.Obligation+": "+err.Error())
+			genErrors = append(genErrors, "twin "+tw.Func+tw.Lemma+"/"+tw.Obligation+": "+err.Error())
 			continue
 		}
-		twinObls = append(twinObls, o)
+		for _, o := range os2 {
+			twinObls = append(twinObls, o)
+			twinOf = append(twinOf, ti)
+		}
 	}
 
 	if len(genErrors) > 0 {
@@ -283,13 +284,26 @@ func cmdProp(args []string) int {
 	}
 	twinFail := 0
 	var twinReport []map[string]string
-	for i, r := range tres {
-		st := "fails-as-expected"
-		if r.Status == "unsat" {
-			st = "STILL-PROVABLE"
+	for ti, tw := range ps.Twins {
+		st := "STILL-PROVABLE"
+		name, ans := "", ""
+		for i, r := range tres {
+			if twinOf[i] != ti {
+				continue
+			}
+			if name == "" {
+				name, ans = r.Obl.Name, r.Status
+			}
+			if r.Status != "unsat" {
+				st = "fails-as-expected"
+				name, ans = r.Obl.Name, r.Status
+				break
+			}
+		}
+		if st == "STILL-PROVABLE" {
 			twinFail++
 		}
-		twinReport = append(twinReport, map[string]string{"twin": ps.Twins[i].Func + " " + ps.Twins[i].Why, "obligation": r.Obl.Name, "solver_answer": r.Status, "result": st})
+		twinReport = append(twinReport, map[string]string{"twin": tw.Func + tw.Lemma + " " + tw.Why, "obligation": name, "solver_answer": ans, "result": st})
 	}
 	if twinFail > 0 {
 		fmt.Printf("ENGINE-FAULT: %d must-fail twin(s) still provable — contracts are vacuous or too weak\n", twinFail)
@@ -478,7 +492,7 @@ func (fv *FuncVC) consistencyGuard() *Obligation {
 
 // twinObligation regenerates a function with one precondition dropped and returns
 // the named obligation, which is expected to be no longer provable.
-func (w *World) twinObligation(tw Twin) (*Obligation, error) {
+func (w *World) twinObligation(tw Twin) ([]*Obligation, error) {
 	if tw.Lemma != "" {
 		for _, ax := range w.CS.Axioms {
 			if ax.Name == tw.Lemma {
@@ -494,9 +508,10 @@ func (w *World) twinObligation(tw Twin) (*Obligation, error) {
 				if len(lv.Errors) > 0 || len(lv.Obls) == 0 {
 					return nil, fmt.Errorf("twin lemma generation failed: %v", lv.Errors)
 				}
-				o := lv.Obls[len(lv.Obls)-1]
-				o.Name = "twin:" + o.Name
-				return o, nil
+				for _, o := range lv.Obls {
+					o.Name = "twin:" + o.Name
+				}
+				return lv.Obls, nil
 			}
 		}
 		return nil, fmt.Errorf("no lemma %s", tw.Lemma)
@@ -544,13 +559,17 @@ func (w *World) twinObligation(tw Twin) (*Obligation, error) {
 	if len(fv.Errors) > 0 {
 		return nil, fmt.Errorf("%v", fv.Errors)
 	}
+	var out []*Obligation
 	for _, o := range fv.Obls {
 		if strings.Contains(o.Name, tw.Obligation) {
 			o.Name = "twin:" + o.Name
-			return o, nil
+			out = append(out, o)
 		}
 	}
-	return nil, fmt.Errorf("no obligation matching %q", tw.Obligation)
+	if len(out) == 0 {
+		return nil, fmt.Errorf("no obligation matching %q", tw.Obligation)
+	}
+	return out, nil
 }
 
 func dropFirstGuard(e Expr) (Expr, bool) {
